@@ -472,6 +472,53 @@ func c07Panics(c *Ctx, r *Report, scope []*ssa.Function, p *Profile, hosted map[
 			}
 		}
 	}
+	// reflect accessors with kind/validity preconditions: frozen table, one line of reason each; anything else is reported
+	nRef := 0
+	for _, fn := range scope {
+		per := map[string]int{}
+		for _, ci := range allCalls(fn) {
+			f := ci.Common().StaticCallee()
+			if f == nil || f.Pkg == nil || f.Pkg.Pkg.Path() != "reflect" {
+				continue
+			}
+			name := f.Name()
+			if c07ReflectSafe[name] {
+				continue
+			}
+			nRef++
+			per[name]++
+			key := fmt.Sprintf("%s/reflect.%s#%d", fn.Name(), name, per[name])
+			if why, ok := c07ReflectAudit[fn.Name()+"/"+name]; ok {
+				r.ok("C07-R2-reflect-preconditions", key, c.pos(ci.Pos()), "audited: "+why)
+			} else {
+				r.fail("C07-R2-reflect-preconditions", key, c.pos(ci.Pos()), "reflect."+name+" has kind/validity preconditions (it panics otherwise) and this call in "+fn.Name()+" is not in the audited table: e.g. Bytes() on a slice whose elements are not uint8, Int() on an unsigned field")
+			}
+		}
+	}
+	r.need("reflect calls with preconditions in Encode-reachable code", nRef, 15)
 	r.set("panic_sites", n)
 	r.need("potential panic sites in Encode-reachable code", n, 8)
+}
+
+// reflect functions/methods without a kind or validity precondition
+var c07ReflectSafe = map[string]bool{"ValueOf": true, "TypeOf": true, "Indirect": true, "IsValid": true, "Kind": true}
+
+// function/method -> why the precondition holds (frozen; a new pair is reported)
+var c07ReflectAudit = map[string]string{
+	"encodeFile/NumField":       "file is reflect.ValueOf(*container): a struct (Encode's switch, C03-5)",
+	"encodeFile/Field":          "index i runs below NumField()",
+	"encodeFile/Len":            "under Kind() == Slice",
+	"encodeFile/Index":          "indices j, k run below Len()",
+	"encodeFile/Interface":      "valid value of an exported container member",
+	"getEncodeMesgDef/Type":     "mesg is valid: encodeDefAndDataMesg tests IsValid(); encodeFile passes Indirect of a container element (nil elements placed through the public API are outside the decoded Files this property quantifies over)",
+	"getEncodeMesgDef/NumField": "mesg and its all-invalid twin are message structs of the same type (C15-1-type)",
+	"getEncodeMesgDef/Field":    "index i runs below NumField()",
+	"getEncodeMesgDef/IsNil":    "under Kind() == Slice",
+	"getEncodeMesgDef/Len":      "under Kind() == Slice",
+	"getEncodeMesgDef/Interface": "exported message fields of a valid struct value",
+	"getMesgAllInvalid/Elem":    "constructors return a pointer to their message struct (C15-1-ctor)",
+	"writeMesg/Field":           "f.sindex is below NumField for every row of the message (C15-2)",
+	"writeField/Interface":      "exported message field",
+	"writeField/Len":            "array flag <-> slice type (C15-3)",
+	"writeField/Index":          "i runs below min(Len(), length)",
 }
